@@ -48,7 +48,7 @@ claimed.update({
          "From one smallest symbol of every encoder family (and five symbols with >= 100 modules on a sparse window around 1x, 2x, 3x) under two colour schemes, every (width,height) in 1..3x+2 and chains of up to 2 (thorough 3) further scalings are executed on the real code and on an integer-only reference model; refusal/acceptance must agree at every step, and bounds, every pixel, Content, Metadata and CheckSum at the end. This covers every residue of the integer factor and of the centring margin, both sides of the error boundary, and already-scaled sources.", "Trusted: the arithmetic model in harness/checks/c09.go (accepts either rounding of an odd margin). Sources: the smallest symbol of each family plus five large ones; Scale only looks at bounds/dimensionality/accessors.", "4.C09"),
  "C10": ("E", "bounded exhaustive enumeration of every encoder entry point over alphabets, full parameter domains and capacity edges under a recover wrapper + watchdog, against a three-valued representability oracle",
          "Every call explored by the round-trip enumerations, plus boundary-alphabet words (incl. non-ASCII digits/letters/space), all 256 PDF417 level bytes, Aztec layers -40..40 x percentages 0..100+, runs of non-ASCII characters, runes whose truncation is a digit or letter, dense sweeps beyond capacity (past the 16-bit wrap of QR bit counts, around 2^15..2^17 characters/codewords/bits for the other 2D codes, every Code 128 length to 700), long linear symbols around 4096/8192 modules, and the differential rule that what automatic Aztec sizing fits into a size the explicit request for that size must accept, must return, with exactly one of barcode/error, accepting what is representable and refusing what is not (an explicit unspecified band never alarms).", E_NOTE + " Non-termination is decided by a 180 s per-call watchdog.", "4.C10"),
- "C11": ("E", "exhaustive families x WithColor variants x 12 colour schemes x representative contents of every symbol size; every pixel compared by identity with the scheme's two colours and with the plain symbol's module matrix",
+ "C11": ("E", "exhaustive families x WithColor variants x 17 colour schemes (incl. pairs that differ as values but render alike) x representative contents of every symbol size; every pixel compared by identity with the scheme's two colours and with the plain symbol's module matrix",
          "The plain symbol is validated by the family's reference decoder (prescribed size, Metadata, Content, black on white) and its module matrix is snapshotted (it must not change when other contents of the family are rendered afterwards); then every colour scheme is rendered and each pixel must be identical to exactly the scheme's foreground or background, give the same module matrix, and ColorModel/ColorScheme/Metadata/Content must report correctly.", E_NOTE, "4.C11"),
  "C12": ("E", "the QR/PDF417/Aztec/DataMatrix enumerations with the decoders' structure records as oracle (declared level, check-codeword counts, zero syndromes, Aztec check bits vs percentage), plus the full Aztec percentage grid",
          "On every decoded symbol the declared level equals the requested one and the carried check codewords are exactly those of the independent ISO tables (verified by zero syndromes after independent de-interleaving); for Aztec, check bits >= pct% of decoded data bits for every percentage 0..100.", E_NOTE, "4.C12"),
